@@ -11,8 +11,10 @@ fn deg(r: Rotation) -> i64 {
     match r { Rotation::Deg0 => 0, Rotation::Deg90 => 90, Rotation::Deg180 => 180, Rotation::Deg270 => 270 }
 }
 
-/// all 2^32 angles: Ok iff multiple of 90, result congruent mod 360, no overflow/panic
+/// all 2^32 angles: Ok iff multiple of 90, result congruent mod 360, no overflow/panic.  The function is loop-free today; the
+/// unwinding bound only makes a change that introduces a loop end in a verdict (or an unwinding failure) instead of a time-out
 #[kani::proof]
+#[kani::unwind(40)]
 fn c15_try_from_degree_all_i32() {
     let a: i32 = kani::any();
     let r = Rotation::try_from_degree(a);
